@@ -212,7 +212,7 @@ func observe(text string, attr string, pr probe) (rank int, out string, ok bool)
 	if pr.val != nil {
 		data = pr.val()
 	}
-	r := tx.Run(text, map[string]interface{}{"V": data, "C": true})
+	r := tx.Run(text, map[string]interface{}{"V": data, "C": true, "L": []int{1}})
 	if r.Panic != nil || r.ParseErr != nil {
 		return 0, "", false
 	}
@@ -374,6 +374,9 @@ func run(c *core.Ctx) {
 			if _, isEnum := p.Enums[cl]; isEnum {
 				checkCell(c, "<"+e+" "+a+"=\"x{{.V}}\">", a, "Reject")
 				checkCell(c, "<"+e+" "+a+"=\"ltr {{.V}}\">", a, "Reject")
+				checkCell(c, "<"+e+" "+a+"=\"{{.V}}x\">", a, "Reject")
+				checkCell(c, "<"+e+" "+a+"='{{.V}} y'>", a, "Reject")
+				checkCell(c, "<"+e+" "+a+"=\"{{.V}}{{.V}}\">", a, "Reject")
 			}
 		}
 	}
@@ -403,6 +406,14 @@ func run(c *core.Ctx) {
 				c1, c2 := p.attrClass(e1, a, ""), p.attrClass(e2, a, "")
 				checkCell(c, text, a, c1)
 				checkCell(c, text, a, c2)
+				// a second, unrelated branch between the conditional name and the action must not
+				// make the engine forget the alternatives
+				text2 := "{{if .C}}<" + e1 + "{{else}}<" + e2 + "{{end}} {{if .C}}lang=\"x\"{{end}} " + a + "=\"{{.V}}\">"
+				checkCell(c, text2, a, c1)
+				checkCell(c, text2, a, c2)
+				text3 := "{{if .C}}<" + e1 + "{{else}}<" + e2 + "{{end}}{{with .C}} {{end}}{{range .L}} lang=\"y\"{{end}} " + a + "='{{.V}}'>"
+				checkCell(c, text3, a, c1)
+				checkCell(c, text3, a, c2)
 			}
 		}
 	}
@@ -417,6 +428,9 @@ func run(c *core.Ctx) {
 				checkCell(c, text, a1, p.attrClass(e, a1, ""))
 				text2 := "<" + e + " {{if .C}}" + a2 + "{{else}}" + a1 + "{{end}}=\"{{.V}}\">"
 				checkCell(c, text2, a2, p.attrClass(e, a1, ""))
+				text3 := "<" + e + " {{if .C}}" + a1 + "{{else}}" + a2 + "{{end}}{{if .C}}{{end}}{{with .C}}{{end}}=\"{{.V}}\">"
+				checkCell(c, text3, a1, p.attrClass(e, a1, ""))
+				checkCell(c, text3, a1, p.attrClass(e, a2, ""))
 			}
 		}
 	}
